@@ -1,0 +1,13 @@
+//go:build verif
+
+package apk
+
+import "context"
+
+// Hook for the C14 verification harness (build tag verif only).
+
+// VerifC14DisqualifyReasons runs the uncached disqualifyDifference on the
+// given map and returns its result as it is: package object -> message.
+func VerifC14DisqualifyReasons(byArch map[string][]NamedIndex) map[*RepositoryPackage]string {
+	return disqualifyDifference(context.Background(), byArch)
+}
